@@ -121,6 +121,13 @@ pub fn handle(op: &str, a: &[&str]) -> Option<String> {
             hk::mint_sub(&mut x, &ys, sz);
             Some(show_list(&x))
         }
+        // 64-bit `mg_inv` (kept in this file: ops_mg64.rs is shared with C06)
+        ("mg_inv", [n, ninv, r2, x]) => Some(show_opt(yamaquasi::arith_montgomery::mg_inv(
+            u64_of(n)?,
+            u64_of(ninv)?,
+            u64_of(r2)?,
+            u64_of(x)?,
+        ))),
         ("m128_inv_2adic", [n]) => Some(h128::m128_inv_2adic(u128_of(n)?).to_string()),
         ("m128_r_r2", [n, ninv]) => {
             let (r, r2) = h128::m128_r_r2(u128_of(n)?, u128_of(ninv)?);
